@@ -814,6 +814,10 @@ def finish_check(prop_id, reports, *, tier, seed, bounds, stubs, assumptions, t0
                 violations.append(v)
     if st.cvc5_disagree:
         errors.append(f"z3 and cvc5 disagree on {st.cvc5_disagree} obligations")
+    if tot["mismatches"]:
+        ex = next((m for r in reports for m in r.validation_mismatch), {})
+        errors.append(f"{tot['mismatches']} explored paths disagree with the real code on replay (engine or stub unfaithful): "
+                      f"{ex.get('case')} path {ex.get('path')}: {str(ex.get('why'))[:160]}")
     os.makedirs(os.path.join(VERIF, "evidence"), exist_ok=True)
     os.makedirs(os.path.join(VERIF, "replays"), exist_ok=True)
     # one replay file per distinct violated obligation class
